@@ -82,6 +82,7 @@ class Ctx:
         self.violations = []
         self.inconclusive = []
         self.max_samples = 3
+        self._per_key = {}
 
     # time ------------------------------------------------------------------
     def time_left(self):
@@ -106,7 +107,10 @@ class Ctx:
 
     def violation(self, key: dict, case, detail):
         """key: structural (mechanism) descriptor used for known-finding matching"""
-        if len(self.violations) < 200:
+        k = json.dumps(jsonable(key), sort_keys=True)
+        self._per_key[k] = self._per_key.get(k, 0) + 1
+        # cap per mechanism key, so frequent (e.g. known) violations never crowd out a new one
+        if self._per_key[k] <= 5 and len(self.violations) < 2000:
             self.violations.append(
                 {"key": jsonable(key), "case": jsonable(case), "detail": jsonable(detail)}
             )
@@ -176,8 +180,15 @@ def worker(args):
     import faulthandler
 
     faulthandler.enable()
+    # hang watchdog: dump the stack into the shard log shortly before the parent kills the shard
+    faulthandler.dump_traceback_later(plan["budget_s"] * plan.get("watchdog_factor", 6) + 60, exit=False)
     try:
+        from vfw import safety
+
+        ctx.safety = safety.install()
         mod.run_shard(ctx)
+        for k, v in ctx.safety.max_backedges.items():
+            ctx.counters["max_backedges:" + k] = max(ctx.counters.get("max_backedges:" + k, 0), v)
         status = "ok"
         err = None
     except BaseException:  # machinery failure inside the shard
@@ -256,14 +267,18 @@ def parent(args):
         except subprocess.TimeoutExpired:
             p.kill()
             p.wait()
-            dead.append((i, "watchdog"))
+            try:
+                tail = open(os.path.join(work, f"shard{i}.log")).read()[-1500:]
+            except Exception:
+                tail = ""
+            dead.append((i, "watchdog " + tail))
         log.close()
         if os.path.exists(out):
             try:
                 results.append(json.load(open(out)))
             except Exception:
                 dead.append((i, "unreadable output"))
-        elif (i, "watchdog") not in dead:
+        elif not any(d[0] == i for d in dead):
             tail = open(os.path.join(work, f"shard{i}.log")).read()[-2000:]
             dead.append((i, f"no output rc={p.returncode}: {tail}"))
 
@@ -274,7 +289,7 @@ def parent(args):
     for r in results:
         nontrivial.update(r["nontrivial"])
         for k, v in r["counters"].items():
-            counters[k] = counters.get(k, 0) + v
+            counters[k] = max(counters.get(k, 0), v) if k.startswith("max_") else counters.get(k, 0) + v
         samples.extend(r["samples"][:2])
         violations.extend(r["violations"])
         inconcl.extend(r["inconclusive"])
@@ -313,7 +328,7 @@ def parent(args):
     missing = [c for c in required if counters.get(c, 0) <= 0]
     reasons = []
     if dead:
-        reasons.append("shards died: " + "; ".join(f"{i}:{w[:300]}" for i, w in dead))
+        reasons.append("shards died: " + "; ".join(f"{i}:{w[-1200:]}" for i, w in dead))
     if crashed:
         reasons.append("shards crashed: " + "; ".join(f"{i}:{(e or '')[-600:]}" for i, e in crashed))
     if evaluations <= 0:
@@ -360,11 +375,10 @@ def parent(args):
         for path, v in replay_paths:
             print(f"VIOLATION property={args.prop} replay={path}")
             print(f"   key={json.dumps(v['key'])} detail={json.dumps(v['detail'])[:600]}")
-        try:
-            import shutil
-            shutil.rmtree(work, ignore_errors=True)
-        except Exception:
-            pass
+        for r in reasons:
+            print(f"INCONCLUSIVE-PART property={args.prop} reason={r}")
+        import shutil
+        shutil.rmtree(work, ignore_errors=True)
         return 1
     import shutil
 
@@ -383,6 +397,9 @@ def replay(args):
     mod = load_prop(args.prop)
     rec = json.load(open(args.replay))
     ctx = Ctx(args.prop, "replay", rec.get("seed", 0), 0, 1, 3600)
+    from vfw import safety
+
+    ctx.safety = safety.install()
     mod.replay(ctx, rec["case"])
     known = load_known()
     bad = 0
